@@ -4,28 +4,9 @@ package recordlayer
 //symgo:param NDGRAM13 quick=20 thorough=36
 //symgo:param NCIDS quick=2 thorough=5
 //symgo:param NMULTI quick=1 thorough=2
-//symgo:replace github.com/pion/dtls/v3/pkg/protocol/recordlayer.unmarshalCiphertextDatagramHeader zzDec13UnmarshalCiphertextDatagramHeader
-//symgo:stub unmarshalCiphertextDatagramHeader is replaced by a line-for-line copy that stores the error before returning the header: the original `return header, header.Unmarshal(data)` relies on the gc compiler reading `header` after the call (order unspecified by the Go spec); go/ssa reads it before, so the interpreter would see a stale header
 //symgo:outside datagrams longer than the stated byte counts
 
 import "github.com/pion/dtls/v3/pkg/protocol"
-
-// zzDec13UnmarshalCiphertextDatagramHeader is recordlayer.unmarshalCiphertextDatagramHeader with the evaluation
-// order the gc compiler uses made explicit (call first, then read the header value).
-func zzDec13UnmarshalCiphertextDatagramHeader(data []byte, cidLength int, cidRequired bool) (UnifiedHeader, error) {
-	hasCID := data[0]&UnifiedHeaderCIDBit != 0
-	if err := validateCiphertextCIDBit(hasCID, cidLength, cidRequired); err != nil {
-		return UnifiedHeader{}, err
-	}
-
-	header := UnifiedHeader{}
-	if hasCID {
-		header.ConnectionID = make([]byte, cidLength)
-	}
-	err := header.Unmarshal(data)
-
-	return header, err
-}
 
 // zzDec13CID lists the connection-ID lengths tried (the first NCIDS of them).
 func zzDec13CID(i int) int {
